@@ -6,6 +6,7 @@ import FemtoVerif.Driver.C08
 import FemtoVerif.Driver.C15
 import FemtoVerif.Driver.C14
 import FemtoVerif.Driver.C04
+import FemtoVerif.Driver.C10
 open Lean
 
 namespace Femto.Driver
@@ -29,6 +30,7 @@ def dispatch (op : String) (j : Json) : Except String Json :=
   | "c14.figure" => C14.figure j
   | "c04.chain" => C04.chain j
   | "c04.sbend" => C04.sbend j
+  | "c10.addpath" => C10.addpath j
   | _ => .error s!"unknown op {op}"
 
 def handleLine (line : String) : String :=
